@@ -330,3 +330,11 @@ pub fn nt_swap_bytes<const B: usize, const L: usize, const NB: usize>(nd: &mut N
     chk!(nd, "C20.nt.to_be", PrimInt::to_be(a) == sw && <Uint<B, L> as PrimInt>::from_be(a) == sw);
     chk!(nd, "C20.nt.to_le", PrimInt::to_le(a) == a && <Uint<B, L> as PrimInt>::from_le(a) == a);
 }
+
+/// zeroize: the value reads as zero afterwards, whatever it was
+pub fn zeroize_facade<const B: usize, const L: usize>(nd: &mut Nd) {
+    use zeroize::Zeroize;
+    let mut a: Uint<B, L> = nd.uint();
+    a.zeroize();
+    chk!(nd, "C20.zeroize", refm::is_zero(a.as_limbs()) && a == Uint::<B, L>::ZERO);
+}
